@@ -172,6 +172,18 @@ def run(ctx):
             ok = ok and not [lab for dd, lab in gates(f.body, ci[0].bb) if lab in (True, False)] and f.body.dominates(ci[0].bb, bd[0].bb)
             ret = strip_sym(Sym(f).local(0))
             ok = ok and ret[0] == "agg" and "inner" in ret[4] and is_param(ret[3][ret[4].index("inner")], 1)
+            if ok:
+                # the patterns the automaton is built from are the ones the user supplied: outside its constructors no
+                # method of the layer rewrites the stored patterns (a setter that lowercases / dedups them in place is
+                # not undone when the flag is switched back)
+                for g_ in u.fns:
+                    if not strip_generics(g_.j.get("impl_self", "")).endswith("FilterLayer") or g_.name in ("from_patterns", "default", "new") or not g_.j.get("mir"):
+                        continue
+                    REWRITE = ("dedup", "dedup_by", "dedup_by_key", "iter_mut", "retain", "retain_mut", "sort", "sort_unstable", "sort_by", "sort_by_key", "clear", "truncate", "drain", "remove", "swap_remove", "pop", "as_mut_slice", "deref_mut", "index_mut", "get_mut", "first_mut", "last_mut", "make_ascii_lowercase", "make_ascii_uppercase", "reverse", "swap")
+                    for c_ in g_.body.calls():
+                        a_ = arg_syms(c_)
+                        if a_ and "'patterns'" in repr(a_[0]) and (callee_method_name(c_) in REWRITE or (callee_method_name(c_) == "into_iter" and "&mut" in (c_.resolved or ""))):
+                            ok = False
             chk.ob("C13.c", f.path, ok, "automaton = builder.ascii_case_insensitive(self.case_insensitive)...build(&self.patterns); inner recorder stored unchanged" if ok else "FilterLayer::layer does not build the automaton from self.patterns with self.case_insensitive", f.loc())
         else:
             chk.unrecognised("C13.c", "<anchor> FilterLayer::layer", "missing")
